@@ -518,6 +518,23 @@ func (t *mbTwinCtx) castErrClass(cf *mbCastFn, m map[string]*mbCastCell, engineR
 						for _, res := range r.Results {
 							if c := cf.l.errClassIn(info, res); c != "" {
 								cls = c
+							} else if rid, ok := ast.Unparen(res).(*ast.Ident); ok {
+								// the interrupt was built into a local first
+								ro := info.Uses[rid]
+								mbInspectNoLit(fd.Body, func(m ast.Node) bool {
+									as2, ok := m.(*ast.AssignStmt)
+									if !ok || len(as2.Lhs) != len(as2.Rhs) {
+										return true
+									}
+									for k, lh := range as2.Lhs {
+										if lid, ok := lh.(*ast.Ident); ok && ro != nil && (info.Defs[lid] == ro || info.Uses[lid] == ro) {
+											if c := cf.l.errClassIn(info, as2.Rhs[k]); c != "" {
+												cls = c
+											}
+										}
+									}
+									return true
+								})
 							}
 						}
 					}
